@@ -327,18 +327,21 @@ pub fn check(rep: &Report) {
                 let r = guarded(|| {
                     let mut wb = open(fmt, &bytes, false).map_err(|e| (usize::MAX, e))?;
                     let mut opt = 0usize;
+                    let mut last = 0u64;
                     for (i, c) in s.iter().enumerate() {
                         let got = do_call(&mut wb, *c);
+                        last = hash_of(&(opt, &got));
                         if (COMMON.len()..COMMON.len() + 3).contains(c) { opt = c - COMMON.len(); continue; }
                         if i + 1 == s.len() || true {
                             let exp = base.get(&(opt, *c)).cloned().unwrap_or_default();
                             if got != exp { return Err((i, format!("call #{i} {} under {} returned {got}, but as a first call it returns {exp}", call_name(fmt, *c), OPTS[opt]))); }
                         }
                     }
-                    Ok(())
+                    Ok(last)
                 });
+                // the observed outcome of a sequence is what its last call returned (under the option then in force)
                 let outcome = match &r {
-                    Ok(Ok(())) => 1u64,
+                    Ok(Ok(h)) => *h,
                     Ok(Err((i, e))) => { let c = if *i == usize::MAX { "open".to_string() } else { call_name(fmt, s[*i]) }; let prev = if *i > 0 && *i != usize::MAX { call_name(fmt, s[*i - 1]) } else { "-".into() }; rep.fail(&format!("{fmt}/impure/{c}/after/{prev}"), e, || replay(s, e)); hash_of(e) }
                     Err(p) => { let site = normalise_site(p.rsplit(" @ ").next().unwrap_or("")); if !base.values().any(|v| v.contains(&site) && v.starts_with("PANIC")) { rep.fail(&format!("{fmt}/panic-in-sequence/{site}"), &format!("panicked: {p}"), || replay(s, p)); } hash_of(p) }
                 };
